@@ -444,6 +444,25 @@ Example tail_field_examples :
   end.
 Proof. vm_compute. repeat split; reflexivity. Qed.
 
+(* gateway forms (dns.rdtypes.util.Gateway): IPSECKEY with no gateway and no key, with an IPv6 gateway, with a
+   name below the origin; AMTRELAY with an IPv4 relay; a gateway text of the wrong form is rejected *)
+Example gateway_examples :
+  match schema_of 45, schema_of 260 with
+  | Some ipk, Some amt =>
+      let k0 := [VInt 10; VGw 0 0 GwNone; VBytes []] in
+      let k2 := [VInt 10; VGw 2 2 (GwText [50; 48; 48; 49; 58; 100; 98; 56; 58; 58; 49]); VBytes [1; 3; 81; 83]] in
+      let k3 := [VInt 0; VGw 3 255 (GwName [[103; 119]; [101; 120]; []]); VBytes [255]] in
+      let a1 := [VInt 10; VInt 1; VGw 1 0 (GwText [49; 48; 46; 48; 46; 48; 46; 49])] in
+      (do text <- record_to_text ex_sty ipk k0; record_from_text ex_ctx ipk (schema_chk 45) text) = Ok k0
+      /\ (do text <- record_to_text ex_sty ipk k2; record_from_text ex_ctx ipk (schema_chk 45) (text ++ [10])) = Ok k2
+      /\ (do text <- record_to_text ex_sty ipk k3; record_from_text ex_ctx ipk (schema_chk 45) text)
+         = Ok [VInt 0; VGw 3 255 (GwName [[103; 119]]); VBytes [255]]
+      /\ (do text <- record_to_text ex_sty amt a1; record_from_text ex_ctx amt (schema_chk 260) text) = Ok a1
+      /\ record_from_text ex_ctx ipk (schema_chk 45) [49; 48; 32; 49; 32; 50; 32; 58; 58; 49; 32; 65; 65; 61; 61] = Lib eSyntax
+  | _, _ => False
+  end.
+Proof. vm_compute. repeat split; reflexivity. Qed.
+
 (* ------------------------------------------------------------------ accepted from text => encodable *)
 
 (* every field value returned by from_text lies in the range of its wire field (struct.pack cannot
